@@ -3124,12 +3124,14 @@ impl Interpreter {
             if let Some(exception) = throw_value {
                 // Inject the exception - if there's a handler, it will jump to catch
                 // If no handler, the exception will propagate
-                if !vm.inject_exception(self, exception.clone()) {
+                // The value was taken out of the generator state, which was all that referenced
+                // it: keep it rooted while handlers are searched (the unwinding may allocate)
+                let guarded = Guarded::from_value(exception.clone(), &self.heap);
+                if !vm.inject_exception(self, exception) {
                     // No exception handler found, propagate the error
                     gen_state.borrow_mut().status = GeneratorStatus::Completed;
                     self.env = saved_env;
                     self.env_guards.truncate(guard_depth);
-                    let guarded = Guarded::from_value(exception, &self.heap);
                     return Err(JsError::ThrownValue { guarded });
                 }
                 // Handler found - continue to run the VM which will execute the catch block
